@@ -225,6 +225,9 @@ def run(ctx):
 
     # ---- r7 status mapping ------------------------------------------------------------------
     status_rules(ctx)
+    # reviewed reference of the selector / timeout predicates (engine/census.py)
+    from rules import census_fns
+    census_fns.run(ctx, 'C11')
 
 
 def check_downcasts(ctx, body, disp, names):
